@@ -1,6 +1,7 @@
 package main
 
 import (
+	"github.com/DemoHn/Zn/pkg/common"
 	"fmt"
 	"math"
 	"os"
@@ -25,8 +26,16 @@ func init() {
 	register("runfiles", opRunFiles)
 }
 
+// httpLib: the two HTTP classes of pkg/common under a library name of the harness' own. Their home, stdlib/http, does
+// not compile; without a library a program cannot construct the HTTP响应 object that sendHTTPResponse unpacks.
+func httpLib() *r.Library {
+	return r.NewLibrary("@验证HTTP").
+		RegisterClass("HTTP请求", common.CLASS_HttpRequest).
+		RegisterClass("HTTP响应", common.CLASS_HttpResponse)
+}
+
 func stdLibs() []*r.Library {
-	return []*r.Library{json.Export(), file.Export()}
+	return []*r.Library{json.Export(), file.Export(), httpLib()}
 }
 
 // ---- canonical values -------------------------------------------------------------------------
